@@ -25,6 +25,8 @@
 mod codec;
 mod config;
 mod io;
+#[cfg(libp2p_verif)]
+pub mod verif_codec;
 
 use std::{
     cmp, iter,
